@@ -29,6 +29,7 @@ long vt_alloc_count;
 long vt_alloc_live;
 long vt_fail_at;
 long vt_failed;
+volatile int vt_pause;		/* >0: observation calls, not counted/failed */
 
 /* open-addressing pointer set of live in-library blocks */
 #define SET_BITS 20
@@ -106,7 +107,7 @@ void vt_alloc_reset_count(void)
 /* returns 1 if this allocation must fail */
 static int account(void)
 {
-    if (vt_in_lib <= 0)
+    if (vt_in_lib <= 0 || vt_pause > 0)
 	return 0;
     ++vt_alloc_count;
     if (vt_fail_at != 0 && vt_alloc_count == vt_fail_at) {
